@@ -1,3 +1,186 @@
-/-! C16 property theorems — stub (not built yet). -/
+import TTModel.C16_Leapfrog
+import TTProofs.Lemmas.C16_Shears
+import TTProofs.Lemmas.C16_Volume
+import Mathlib.Tactic.Ring
+import Mathlib.Tactic.NormNum
+import Mathlib.Tactic.FieldSimp
+/-!
+# C16 — the leapfrog integrator is reversible and volume preserving; Hastings term = ΔK
+
+All theorems are about `TT.C16.leapfrogWith` / `leapfrog` / `hmcStep`
+(`TTModel/C16_Leapfrog.lean`), the definitions the driver `drv_c16` executes at `Rat` and `Float`
+against the real `LeapfrogIntegrator.__call__` / `HMCOperator._step`.
+The gradient `g` is an ARBITRARY function in every statement.
+-/
 namespace TTProps.C16
+open TT TT.C16 MeasureTheory
+
+/-! ## composition of shears -/
+
+/-- **leapfrog_is_shears**: for any gradient function, half step `h`, step `ε`, inverse mass
+matrix (diagonal or dense, not assumed symmetric or positive) and any number of steps, the
+integrator is `kick(−h) ∘ (kick ε ∘ drift ε)^steps ∘ kick h`, and each of the two kinds of shear
+is a bijection of phase space. -/
+theorem leapfrog_is_shears {R : Type} [CommRing R] {n : Nat} (g : Vec R n → Vec R n) (h eps : R)
+    (im : IMass R n) (steps : Nat) :
+    (∀ q p, leapfrogWith g h eps im steps q p
+        = kick g (-h) ((fun z => kick g eps (drift eps im z))^[steps] (kick g h (q, p))))
+    ∧ (∀ a, Function.Bijective (kick g a)) ∧ Function.Bijective (drift eps im) :=
+  ⟨fun q p => leapfrogWith_eq g h eps im steps q p, fun a => kick_bijective g a,
+    drift_bijective eps im⟩
+
+/-! ## reversibility -/
+
+/-- **leapfrog_reversible**: over any commutative ring, for ANY gradient function, any inverse
+mass matrix and any number of steps: integrate from `(q,p)`, negate the momentum, integrate
+again, negate the momentum — you are back at `(q,p)` exactly.  The only hypothesis is that the
+two half steps add up to the step size (`h + h = ε`; the code uses `h = ε/2`). -/
+theorem leapfrog_reversible {R : Type} [CommRing R] {n : Nat} (g : Vec R n → Vec R n) (h eps : R)
+    (hh : h + h = eps) (im : IMass R n) (steps : Nat) (q p : Vec R n) :
+    let z' := leapfrogWith g h eps im steps q p
+    leapfrogWith g h eps im steps z'.1 (fun i => -(z'.2 i)) = (q, fun i => -(p i)) := by
+  intro z'
+  have key := shear_reversible g h eps hh im steps (q, p)
+  simp only at key
+  have e1 : z' = kick g (-h) ((loopMap g eps im)^[steps] (kick g h (q, p))) :=
+    leapfrogWith_eq g h eps im steps q p
+  have e2 := leapfrogWith_eq g h eps im steps z'.1 (fun i => -(z'.2 i))
+  rw [e2]
+  have : (z'.1, fun i => -(z'.2 i)) = TT.C16.flip z' := rfl
+  rw [this, e1]
+  have := congrArg TT.C16.flip key
+  rw [TT.C16.flip_flip] at this
+  exact this
+
+/-- the same for `leapfrog` itself (`h = step_size / 2`) over any field where `2 ≠ 0` -/
+theorem leapfrog_reversible_field {K : Type} [Field K] (h2 : (2 : K) ≠ 0) {n : Nat}
+    (g : Vec K n → Vec K n) (eps : K) (im : IMass K n) (steps : Nat) (q p : Vec K n) :
+    let z' := leapfrog g eps im steps q p
+    leapfrog g eps im steps z'.1 (fun i => -(z'.2 i)) = (q, fun i => -(p i)) := by
+  have hh : eps / 2 + eps / 2 = eps := by field_simp; ring
+  exact leapfrog_reversible g (eps / 2) eps hh im steps q p
+
+/-- non-vacuity: a concrete 2-parameter run with a dense non-symmetric inverse mass matrix and a
+non-conservative "gradient" really moves, and comes back -/
+example :
+    let g : Vec ℚ 2 → Vec ℚ 2 := fun q i => if i = 0 then q 1 * q 1 - 3 * q 0 else q 0 + 1
+    let im : IMass ℚ 2 := .dense fun i j => if i = j then 2 else if i = 0 then 1 else 0
+    let z' := leapfrog g (1/2) im 3 (fun i => if i = 0 then 1 else -1) (fun _ => 1/2)
+    z'.1 0 ≠ 1 ∧ leapfrog g (1/2) im 3 z'.1 (fun i => -(z'.2 i))
+      = ((fun i => if i = 0 then 1 else -1), fun _ => -(1/2 : ℚ)) := by
+  refine ⟨by decide +kernel, ?_⟩
+  exact leapfrog_reversible_field (by norm_num) _ _ _ _ _ _
+
+/-! ## volume preservation -/
+
+/-- **leapfrog_volume**: over `ℝⁿ × ℝⁿ`, for any measurable gradient function (no smoothness),
+the integrator map preserves Lebesgue measure — the measure-theoretic form of "Jacobian
+determinant one". Any `h`, any `ε`, any inverse mass matrix, any number of steps. -/
+theorem leapfrog_volume {n : ℕ} (g : Vec ℝ n → Vec ℝ n) (hg : Measurable g) (h eps : ℝ)
+    (im : IMass ℝ n) (steps : ℕ) :
+    MeasurePreserving (fun z : Vec ℝ n × Vec ℝ n => leapfrogWith g h eps im steps z.1 z.2)
+      (volume.prod volume) (volume.prod volume) := by
+  have e : (fun z : Vec ℝ n × Vec ℝ n => leapfrogWith g h eps im steps z.1 z.2)
+      = (kick g (-h)) ∘ ((loopMap g eps im)^[steps]) ∘ (kick g h) := by
+    funext z
+    exact leapfrogWith_eq g h eps im steps z.1 z.2
+  rw [e]
+  exact (kick_preserving g hg (-h)).comp
+    (((loopMap_preserving g hg eps im).iterate steps).comp (kick_preserving g hg h))
+
+/-- the statement for `leapfrog` (`h = ε/2`) -/
+theorem leapfrog_volume_half {n : ℕ} (g : Vec ℝ n → Vec ℝ n) (hg : Measurable g) (eps : ℝ)
+    (im : IMass ℝ n) (steps : ℕ) :
+    MeasurePreserving (fun z : Vec ℝ n × Vec ℝ n => leapfrog g eps im steps z.1 z.2)
+      (volume.prod volume) (volume.prod volume) :=
+  leapfrog_volume g hg (eps / 2) eps im steps
+
+/-- non-vacuity: a continuous (non-smooth) gradient is measurable -/
+example : Measurable (fun q : Vec ℝ 2 => fun i => |q i|) := by
+  refine measurable_pi_lambda _ fun i => ?_
+  have hi : Measurable fun q : Fin 2 → ℝ => q i := measurable_pi_apply i
+  exact continuous_abs.measurable.comp hi
+
+/-! ## the Hastings term -/
+
+/-- **hastings_is_kinetic**: whenever a trial of `HMCOperator._step` does not raise, the value
+it returns is `K(p₀) − K(p_L)`, `p₀` the momentum drawn in that trial and `p_L` the momentum the
+integrator returned, and the positions left in the parameters are the integrator's. -/
+theorem hastings_is_kinetic {α : Type} [Add α] [Sub α] [Mul α] [Neg α] [Zero α] {n : Nat}
+    (bad : Vec α n → Bool) (g : Vec α n → Vec α n) (h eps half : α) (im : IMass α n)
+    (steps : Nat) (q p0 : Vec α n) (ps : List (Vec α n)) (t : Nat)
+    (hok : trialRaises bad g h eps im steps q p0 = false) :
+    hmcStep bad g h eps half im steps q (t + 1) (p0 :: ps)
+      = .ok (leapfrogWith g h eps im steps q p0).1
+          (kinetic half im p0 - kinetic half im (leapfrogWith g h eps im steps q p0).2) := by
+  simp [hmcStep, hok, hastingsOf]
+
+/-- failed trials consume their momentum draw and change nothing else -/
+theorem hmc_retry {α : Type} [Add α] [Sub α] [Mul α] [Neg α] [Zero α] {n : Nat}
+    (bad : Vec α n → Bool) (g : Vec α n → Vec α n) (h eps half : α) (im : IMass α n)
+    (steps : Nat) (q p0 : Vec α n) (ps : List (Vec α n)) (t : Nat)
+    (hbad : trialRaises bad g h eps im steps q p0 = true) :
+    hmcStep bad g h eps half im steps q (t + 1) (p0 :: ps)
+      = hmcStep bad g h eps half im steps q t ps := by
+  simp [hmcStep, hbad]
+
+/-- when every trial raises, `_step` answers `inf` with the positions restored (the caller
+`MCMC.run` then rejects: C15 `degenerate_rejects`) -/
+theorem hmc_all_fail_restores {α : Type} [Add α] [Sub α] [Mul α] [Neg α] [Zero α] {n : Nat}
+    (bad : Vec α n → Bool) (g : Vec α n → Vec α n) (h eps half : α) (im : IMass α n)
+    (steps : Nat) (q : Vec α n) :
+    ∀ (t : Nat) (ps : List (Vec α n)),
+      (∀ p ∈ ps, trialRaises bad g h eps im steps q p = true) →
+      hmcStep bad g h eps half im steps q t ps = .inf q
+  | 0, _, _ => rfl
+  | _ + 1, [], _ => rfl
+  | t + 1, p :: ps, hall => by
+    rw [hmc_retry bad g h eps half im steps q p ps t (hall p (List.mem_cons_self ..))]
+    exact hmc_all_fail_restores bad g h eps half im steps q t ps
+      fun p' hp' => hall p' (List.mem_cons_of_mem _ hp')
+
+/-- **acceptance is decided on the full Hamiltonian difference**: with potential
+`U = −log π`, `(log π(q') − log π(q)) + (K₀ − K₁) = −(H(q',p') − H(q,p))`. -/
+theorem hastings_gives_minus_deltaH {R : Type} [CommRing R] (logpi0 logpi1 K0 K1 : R) :
+    (logpi1 - logpi0) + (K0 - K1) = -((-logpi1 + K1) - (-logpi0 + K0)) := by
+  ring
+
+/-- kinetic energy is the quadratic form `½ pᵀ M⁻¹ p` -/
+theorem kinetic_eq {R : Type} [CommRing R] {n : Nat} (half : R) (m : Fin n → Fin n → R)
+    (p : Vec R n) :
+    kinetic half (.dense m) p = (∑ i, ∑ j, p i * m i j * p j) * half := by
+  simp only [kinetic, IMass.apply, sumFin_eq_sum, Finset.mul_sum, mul_assoc]
+
+/-- non-vacuity of `hastings_is_kinetic`: an exact run never raises (`bad = false`), and the
+returned term is not trivially zero -/
+example :
+    let g : Vec ℚ 1 → Vec ℚ 1 := fun q _ => -(3 * q 0)
+    let im : IMass ℚ 1 := .diag fun _ => 2
+    let one : Vec ℚ 1 := fun _ => 1
+    hmcStep (fun _ => false) g (1/4) (1/2) (1/2) im 2 one 10 [one]
+      = .ok (leapfrogWith g (1/4) (1/2) im 2 one one).1
+          (kinetic (1/2) im one - kinetic (1/2) im (leapfrogWith g (1/4) (1/2) im 2 one one).2)
+    ∧ kinetic (1/2) im one - kinetic (1/2) im (leapfrogWith g (1/4) (1/2) im 2 one one).2 ≠ 0 := by
+  refine ⟨hastings_is_kinetic _ _ _ _ _ _ _ _ _ _ _ (by decide +kernel), by decide +kernel⟩
+
+/-! ## energy error (stretch; partial)
+
+Full clause of the property: "the energy error shrinks quadratically with the step size" for
+every smooth target.  That needs differentiability and a Taylor bound and is NOT claimed here.
+Proved: for every quadratic potential `U(q) = a q²/2 + b q` in one dimension, any inverse mass
+`m`, one step of `leapfrog` changes the energy by exactly `ε³ · P(a,b,m,ε,q,p)` with `P` the
+explicit polynomial below (local error `O(ε³)`, hence `O(ε²)` over a fixed integration time).
+For general targets the clause is explored on the implementation by step halving (`c16.py`). -/
+theorem energy_quadratic_partial (a b m eps q p : ℝ) :
+    let g : Vec ℝ 1 → Vec ℝ 1 := fun x _ => -(a * x 0 + b)
+    let H : ℝ → ℝ → ℝ := fun q p => (a * q * q / 2 + b * q) + m * p * p / 2
+    let z := leapfrog g eps (.diag fun _ => m) 1 (fun _ => q) (fun _ => p)
+    H (z.1 0) (z.2 0) - H q p
+      = eps ^ 3 * (a * m ^ 2 * (2 * p - eps * (a * q + b))
+          * (4 * (a * q + b) + 2 * a * eps * m * p - a * eps ^ 2 * m * (a * q + b)) / 32) := by
+  intro g H z
+  have hz : z = leapfrogWith g (eps / 2) eps (.diag fun _ => m) 1 (fun _ => q) (fun _ => p) := rfl
+  simp only [hz, leapfrogWith, loop, loopBody, force_eq, negGrad, driftQ, g, H]
+  ring
+
 end TTProps.C16
